@@ -912,3 +912,8 @@ mod tests {
         }
     }
 }
+
+#[cfg(kani)]
+pub(crate) mod verif {
+    include!(concat!(env!("LIBP2P_VERIF"), "/hooks/gossipsub_protocol.rs"));
+}
